@@ -47,6 +47,15 @@ for pid, txt in {
 }.items():
     CLAIMED[pid] = dict(level="model_checking", technique=EXEC_TECH, text=txt, note=EXEC_NOTE, design="DESIGN.md §6 " + pid)
 
+SCHEMA_TECH = ("TLA+ state machine of Root loading (Loader.tla over the abstract schemas of SchemaCore.tla, rules in SchemaRules.tla) model-checked with TLC "
+               "(action property Atomic, invariants AsIfNeverHappened/OrderFree); every history TLC explores is replayed on a real Root and the schema read back through the API is compared with the prescribed one")
+SCHEMA_NOTE = ("Trusted: TLC, the SDL renderer for abstract definitions, the read-back (public accessors plus three verif accessors for directives/schema). "
+               "Exhaustive within the document pool / definition sets of spec/LoadUniverse.tla and MCArrange.tla.")
+CLAIMED["C14"] = dict(level="model_checking", technique=SCHEMA_TECH, note=SCHEMA_NOTE, design="DESIGN.md §6 C14",
+                      text="all histories of 3 (thorough 4) loads over 27 documents (valid, extend, schema blocks; one failing document per failure class incl. reader faults, each after valid content): after every load the verdict and the read-back schema must equal Loader!LoadResult - unchanged after a refused load")
+CLAIMED["C16"] = dict(level="model_checking", technique=SCHEMA_TECH, note=SCHEMA_NOTE, design="DESIGN.md §6 C16",
+                      text="every permutation x cut into <=3 loads x extend-move of 7 definition sets: TLC checks OrderFree on the specification, and each arrangement replayed on a real Root must read back as the canonical schema of the reference arrangement (same verdict, same types/members/wrappers/defaults/directive uses with defaults filled, same roots)")
+
 NOT_YET = {
 }
 
